@@ -75,6 +75,36 @@ Theorem C04_factor_seqof : forall ct isset ops1 ops2,
 Proof. exact factor_seqof. Qed.
 Print Assumptions C04_factor_seqof.
 
+(* SEQUENCE OF / SET OF states without holes or placeholders, whatever order the positions were first assigned
+   in (the dict keeps insertion order: s[2] = c; s[1] = b; s[0] = a is another dict than the ascending twin):
+   the encoder and iteration go by ascending position, so DER and iteration are functions of the lookup only,
+   and encoding leaves the state alone *)
+Theorem C04_seqof_assignment_order : forall ct isset (d1 d2: dict) (val: nat -> Z) n,
+  slen (Some d1) = n -> slen (Some d2) = n ->
+  (forall k, k < n -> dget k d1 = Some (CVal (val k))) ->
+  (forall k, k < n -> dget k d2 = Some (CVal (val k))) ->
+  snd (sof_step ct isset (Some d1) SEncode) = snd (sof_step ct isset (Some d2) SEncode) /\
+  fst (sof_step ct isset (Some d1) SEncode) = Some d1 /\
+  snd (sof_step ct isset (Some d1) SIter) = OSlots (map (fun k => Some (CVal (val k))) (seq 0 n)).
+Proof. exact seqof_assignment_order. Qed.
+Print Assumptions C04_seqof_assignment_order.
+
+(* assignment is a lookup update, so any order of assigning every position ends in such a state *)
+Theorem C04_assignment_is_update : forall k k' v (d: dict),
+  dget k (dset k' v d) = if Nat.eqb k k' then Some v else dget k d.
+Proof. exact dget_dset. Qed.
+Print Assumptions C04_assignment_is_update.
+
+Example C04_seqof_assignment_order_nonvacuous :
+  let h1 := [SSetItem 2 (PInt 30); SSetItem 1 (PInt 20); SSetItem 0 (PInt 10)] in
+  let h2 := [SSetItem 0 (PInt 10); SSetItem 1 (PInt 20); SSetItem 2 (PInt 30)] in
+  fst (sof_run true false None h1) = Some [(2, CVal 30%Z); (1, CVal 20%Z); (0, CVal 10%Z)] /\
+  fst (sof_run true false None h2) = Some [(0, CVal 10%Z); (1, CVal 20%Z); (2, CVal 30%Z)] /\
+  snd (sof_step true false (fst (sof_run true false None h1)) SEncode) =
+  snd (sof_step true false (fst (sof_run true false None h2)) SEncode) /\
+  snd (sof_step true false (fst (sof_run true false None h1)) SEncode) = OBytes [48; 9; 2; 1; 10; 2; 1; 20; 2; 1; 30]%N.
+Proof. exact seqof_assignment_order_example. Qed.
+
 (* SEQUENCE / SET: same abstract content (DEFAULT explicit or left out, any assignment order, clone, reads
    in between) -> same value/schema status and the same DER.  [_partial]: the histories are the well-formed
    ones of C19 (len(), prettyPrint() and == with absent members are not part of them) *)
